@@ -137,7 +137,8 @@ inline void emit_flight(const char* kind, int sig) {
 extern "C" inline void vf_signal_handler(int sig) {
     if (sig == SIGALRM) {
         Flight& f = flight();
-        if (f.case_no == f.last_seen) { if (++f.ticks_same >= f.hang_ticks) { emit_flight("hang", sig); _exit(97); } }
+        // the fixed regression catalogue (case -1) is many items under one case number: it gets ten times the per-case budget
+        if (f.case_no == f.last_seen) { if (++f.ticks_same >= (f.case_no == -1 ? f.hang_ticks * 10 : f.hang_ticks)) { emit_flight("hang", sig); _exit(97); } }
         else { f.last_seen = f.case_no; f.ticks_same = 0; }
         return;
     }
